@@ -1,13 +1,19 @@
 (* C07 - detection does not depend on position or on surrounding unrelated
-   text.  PARTIAL: only the exact-copy case is proved (the bounds of the range
-   proposed for a verbatim copy are those of the copy wherever it sits: any A,
-   any B); for noisy and partial X the property is searched (metamorphic
-   oracle), not proved - the density window, the negative-offset clamp and the
-   short-target trim of searchset.go are position dependent by construction. *)
-From Coq Require Import List NArith ZArith Bool.
+   text.  PARTIAL.  Proved for ARBITRARY X (noisy, partial, several licenses):
+   the hash-join stage (targetMatchedRanges) and the hit bitmap detectRuns
+   starts from are those of X alone, shifted by the number of q-gram windows
+   that start in the preceding block, whenever no window that lies in or
+   straddles the surrounding text has a checksum occurring in the document
+   (out-of-vocabulary text, no CRC collision).  Proved for exact copies: the
+   bounds of the proposed range are those of the copy wherever it sits.  For
+   the stages after the bitmap (density window, negative-offset clamp,
+   short-target trim, fusion, overlap resolution) the property is searched
+   (metamorphic oracle), not proved: they are position dependent by
+   construction at the edges of X. *)
+From Coq Require Import List NArith ZArith Bool FMapPositive.
 Import ListNotations.
 From LC.Base Require Import Float64.
-From LC.V2 Require Import SSet Match Planted.
+From LC.V2 Require Import SSet Match Planted MatchWF Shift.
 
 Theorem C07_exact_copy_position_independent_partial :
   forall (H : list N -> N) (q : nat) (A K B : list N),
@@ -26,3 +32,34 @@ Theorem C07_exact_copy_position_independent_partial :
            tgt_end r = N.of_nat (length A + length K) /\ (N.of_nat (length K) <= claimed r)%N.
 Proof. exact (@planted_potential_match). Qed.
 Print Assumptions C07_exact_copy_position_independent_partial.
+
+(* the hash join of ANY content X is position independent *)
+Theorem C07_hash_join_position_independent_partial :
+  forall (src : sset) (q la lx lb : N) (SA SX SB : list N),
+    (forall c, In c SA -> PositiveMap.find (pos_of_N c) (hashes src) = None) ->
+    (forall c, In c SB -> PositiveMap.find (pos_of_N c) (hashes src) = None) ->
+    (0 < lx)%N ->
+    let tX := {| ss_len := lx; ss_q := q; ss_sums := SX |} in
+    let tE := {| ss_len := la + lx + lb; ss_q := q; ss_sums := SA ++ SX ++ SB |} in
+    target_matched_ranges src tE =
+    map (shift (N.of_nat (length SA))) (target_matched_ranges src tX).
+Proof. exact matched_ranges_shift. Qed.
+Print Assumptions C07_hash_join_position_independent_partial.
+
+(* ... and so is the hit bitmap the density window slides over: zeros, the bitmap of X alone, zeros *)
+Theorem C07_hit_bitmap_position_independent_partial :
+  forall (src : sset) (q lx lb : N) (SA SX SB : list N),
+    (forall c, In c SA -> PositiveMap.find (pos_of_N c) (hashes src) = None) ->
+    (forall c, In c SB -> PositiveMap.find (pos_of_N c) (hashes src) = None) ->
+    (0 < lx)%N ->
+    let tX := {| ss_len := lx; ss_q := q; ss_sums := SX |} in
+    let tE := {| ss_len := N.of_nat (length SA) + lx + lb; ss_q := q; ss_sums := SA ++ SX ++ SB |} in
+    MatchWF.ss_wf src -> MatchWF.ss_wf tX ->
+    hits_of (target_matched_ranges src tE) (N.of_nat (length SA) + lx + lb) =
+    repeat 0%N (length SA) ++ hits_of (target_matched_ranges src tX) lx ++ repeat 0%N (N.to_nat lb).
+Proof. exact hits_of_embedded. Qed.
+Print Assumptions C07_hit_bitmap_position_independent_partial.
+
+(* non-vacuity: three matched ranges on three diagonals, shifted by two windows *)
+Example C07_shift_example : ltac:(let t := type of Shift.ex_shift in exact t).
+Proof. exact Shift.ex_shift. Qed.
